@@ -331,9 +331,23 @@ def cross_check_unsat(pool, sample_size, rnd, timeout_s=20):
     checked = agreed = unknown = 0
     bad = []
     texts = dict(sample)
+    fixed = []
     for chunk, lines in zip(chunks, results):
         if any(l.startswith("(error") for l in lines) or len(lines) != len(chunk):
-            raise Inconclusive("second solver reported an error or lost a query: %r" % lines[:3])
+            # the old solver crashed or choked somewhere in this batch: ask one query per process;
+            # whatever it cannot answer is counted as unknown (it is only the second opinion)
+            lines = []
+            for _, q in chunk:
+                try:
+                    p = subprocess.run(["/usr/bin/z3", "-in", "-T:%d" % timeout_s],
+                                       input=PRELUDE + q + "(check-sat)\n", capture_output=True,
+                                       text=True, timeout=timeout_s + 10)
+                    out = [l.strip() for l in p.stdout.split("\n") if l.strip()]
+                    lines.append(out[0] if out and out[0] in ("sat", "unsat") else "unknown")
+                except Exception:
+                    lines.append("unknown")
+        fixed.append(lines)
+    for chunk, lines in zip(chunks, fixed):
         for (key, _), l in zip(chunk, lines):
             checked += 1
             if l == "unsat":
